@@ -381,7 +381,8 @@ pub fn guard_violation(m: &Model, gs: &GuardState, op: &FsOp) -> Option<&'static
             _ => None,
         };
         if let Some(p) = made {
-            if gs.stale_dirs.iter().any(|s| p == s || p.starts_with(&format!("{s}/"))) {
+            // (the name itself, something below it, or a directory above it that went with it)
+            if gs.stale_dirs.iter().any(|s| p == s || p.starts_with(&format!("{s}/")) || s.starts_with(&format!("{p}/"))) {
                 return Some(KF_REMOVE);
             }
         }
@@ -681,6 +682,7 @@ impl Property for C10 {
                 in_sim: true,
                 ops2: list(1),
                 finish_before_crash: false,
+                crash_all: false,
             };
             let mut r = crate::props::c07::run_in_sim(&sc7, keep);
             r.probes.inc("two_hosts_as_programs_inside_one_simulation");
